@@ -92,6 +92,8 @@ def main():
     H.KF_ONLY = spec.get("kf_only")
     mod = importlib.import_module(spec["harness"])
     fn = getattr(mod, spec["fn"])
+    if hasattr(mod, "prepare"):
+        mod.prepare(H.PARAMS)     # concrete set-up outside tracing (build programs, warm caches)
 
     if spec["mode"] == "validate":
         try:
@@ -151,6 +153,18 @@ def main():
 
     from crosshair.core_and_libs import analyze_function, run_checkables, MessageType
     from crosshair.options import AnalysisOptionSet
+
+    # CrossHair may "short-circuit" calls to repr()/hash()/print() (skip the body, return a fresh symbolic,
+    # reconcile at the end of the path) with probability 0.3 per call: sound, but it doubles the path tree at
+    # every such call and interacts badly with caches.  Always call into the real function instead.
+    import crosshair.core as _cc
+    _orig_consider = _cc.consider_shortcircuit
+
+    def _consider(fn_, sig, bound, subconditions, allow_interpretation):
+        if allow_interpretation:
+            return None
+        return _orig_consider(fn_, sig, bound, subconditions, allow_interpretation)
+    _cc.consider_shortcircuit = _consider
 
     timeout = float(spec.get("timeout", 60))
 
